@@ -151,6 +151,7 @@ type obs struct {
 	recovered           []string
 	w                   *recW
 	hook                func(ev, ctx string)
+	faults              map[string]string // per-request fault plan (concurrent runs)
 }
 
 func newObs() *obs {
@@ -161,6 +162,7 @@ func newObs() *obs {
 // the header map is snapshotted at the first WriteHeader / Write, later
 // mutations and later WriteHeader calls do not reach the client.
 type recW struct {
+	o      *obs // the observation this writer belongs to (concurrent runs)
 	hdr    http.Header
 	sent   http.Header
 	status int
@@ -256,11 +258,15 @@ func (e *env) clobbered() bool {
 	return bad
 }
 
-func (e *env) maybePanic(site string) {
-	if e.faults == nil {
+func (e *env) maybePanic(o *obs, site string) {
+	f := e.faults
+	if o != nil && o.faults != nil {
+		f = o.faults
+	}
+	if f == nil {
 		return
 	}
-	if v, ok := e.faults[site]; ok {
+	if v, ok := f[site]; ok {
 		panic(panicValue(v))
 	}
 }
@@ -346,7 +352,7 @@ func (e *env) call(w http.ResponseWriter, r *http.Request, rt types.Route, h *H)
 	}
 	for h.tag != "" { // a nil h faults here exactly as a user CallFunc would
 		o.order = append(o.order, h.tag)
-		e.maybePanic("mw:" + h.tag)
+		e.maybePanic(o, "mw:"+h.tag)
 		h = h.next
 	}
 	o.kind, o.h = h.kind, h.id
@@ -359,7 +365,7 @@ func (e *env) call(w http.ResponseWriter, r *http.Request, rt types.Route, h *H)
 		o.pat = n.Pattern()
 		o.allowN = append([]string{}, n.Methods()...)
 	}
-	e.maybePanic("h:" + o.kind)
+	e.maybePanic(o, "h:"+o.kind)
 	switch h.kind {
 	case "405", "opt":
 		a := h.node.AllowHeader()
@@ -456,7 +462,11 @@ func (c *Cfg) options(e *env) []mux.Option {
 	if c.Recovery {
 		opts = append(opts, mux.WithRecovery(func(w http.ResponseWriter, v any) {
 			_, val := describePanic(v)
-			e.cur.recovered = append(e.cur.recovered, val)
+			if rw, ok := w.(*recW); ok && rw.o != nil {
+				rw.o.recovered = append(rw.o.recovered, val)
+			} else if e.cur != nil {
+				e.cur.recovered = append(e.cur.recovered, val)
+			}
 			w.WriteHeader(500)
 		}))
 	}
